@@ -96,7 +96,8 @@ type Client struct {
 	done           chan struct{}  // closed when the Client is closed
 	ready          chan struct{}  // closed when the connection is negotiated
 	isClosed       uint32         // used atomically to prevent duplicate closure of done
-	version        VersionNum     // sent in headers; established during negotiation
+	versionMu      sync.RWMutex   // guards version: negotiation changes it while the read and write loops use it
+	version        VersionNum     // sent in headers; established during negotiation; use ver/setVer
 }
 
 const (
@@ -177,7 +178,7 @@ func WithVersion(v VersionNum) ClientOpt {
 		panic(fmt.Errorf("unsupported version %v", v))
 	}
 	return clientOpt(func(c *Client) {
-		c.version = v
+		c.setVer(v)
 	})
 }
 
@@ -332,6 +333,21 @@ func (c *Client) setStdLogger(prefix string) {
 	l.Logger = log.New(os.Stderr, "LLRP-"+prefix+"-", log.LstdFlags)
 	c.logger = l
 }
+
+// ver returns the protocol version in use.
+func (c *Client) ver() VersionNum {
+	c.versionMu.RLock()
+	defer c.versionMu.RUnlock()
+	return c.version
+}
+
+// setVer changes the protocol version in use.
+func (c *Client) setVer(v VersionNum) {
+	c.versionMu.Lock()
+	defer c.versionMu.Unlock()
+	c.version = v
+}
+
 func (l *StdLogger) SendingMsg(hdr Header) {
 	l.Printf("<<< message{%v}", hdr)
 }
@@ -416,7 +432,7 @@ func (c *Client) Connect(conn net.Conn) error {
 		errs <- c.handleIncoming()
 	}()
 
-	if c.version > Version1_0_1 {
+	if c.ver() > Version1_0_1 {
 		if err := c.negotiate(); err != nil {
 			return err
 		}
@@ -720,7 +736,7 @@ func (c *Client) handleIncoming() error {
 			return ErrClientClosed
 		}
 
-		c.logger.ReceivedMsg(hdr, c.version)
+		c.logger.ReceivedMsg(hdr, c.ver())
 
 		if hdr.typ == MsgCloseConnectionResponse {
 			receivedClosed = true
@@ -813,7 +829,7 @@ func (c *Client) handleOutgoing() error {
 			// these messages are required to use version 1.1
 			msg.version = Version1_1
 		} else if msg.version == 0 {
-			msg.version = c.version
+			msg.version = c.ver()
 		}
 
 		if c.timeout > 0 {
@@ -1037,7 +1053,7 @@ func (c *Client) checkInitialMessage() error {
 		return err
 	}
 
-	c.logger.ReceivedMsg(hdr, c.version)
+	c.logger.ReceivedMsg(hdr, c.ver())
 
 	if hdr.payloadLen > MaxBufferedPayloadSz {
 		return fmt.Errorf("initial connection message has huge size; "+
@@ -1165,16 +1181,16 @@ func (c *Client) negotiate() error {
 	}
 
 	// Use the max of our desired version & the Reader's max supported version.
-	if c.version > sv.MaxSupportedVersion {
-		c.version = sv.MaxSupportedVersion
+	if c.ver() > sv.MaxSupportedVersion {
+		c.setVer(sv.MaxSupportedVersion)
 	}
 
 	// If the device is already using this, no need to set it.
-	if sv.CurrentVersion == c.version {
+	if sv.CurrentVersion == c.ver() {
 		return nil
 	}
 
-	m, err := NewByteMessage(MsgSetProtocolVersion, []byte{uint8(c.version)})
+	m, err := NewByteMessage(MsgSetProtocolVersion, []byte{uint8(c.ver())})
 	if err != nil {
 		return err
 	}
